@@ -95,8 +95,11 @@ Proof. vm_compute. repeat split; reflexivity. Qed.
    streams.  Pinned: the expressions that panic by construction - unchecked type assertions and explicit panic calls.  The two
    assertions are on proto.GetExtension results of exactly the asserted extension type (guarded by proto.HasExtension);
    hasher.number's panic is reachable only for kinds binary.Write rejects, and every call site passes a fixed-size kind. ---- *)
-Example C05_unchecked_sites_accounted : unchecked_sites = [
+(* every entry the translator extracts from the CURRENT source is one of the accounted ones (an entry that disappears - a variable
+   turned into a function, a loop rewritten - needs no new account; a new entry breaks this) *)
+Example C05_unchecked_sites_accounted : let accounted : list (string * string * string) := [
   ("extensions/nyctalerts/nyctalerts.go", "assert", "proto.GetExtension(alert, gtfsrt.E_MercuryAlert).(*gtfsrt.MercuryAlert)");
   ("extensions/nyctalerts/nyctalerts.go", "assert", "proto.GetExtension(informedEntity, gtfsrt.E_MercuryEntitySelector).(*gtfsrt.MercuryEntitySelector)");
-  ("hash.go", "panic", "panic(fmt.Sprintf(""failed to hash %T"", a))")].
-Proof. reflexivity. Qed.
+  ("hash.go", "panic", "panic(fmt.Sprintf(""failed to hash %T"", a))")] in
+  forallb (fun x => existsb (fun y => String.eqb (fst (fst x)) (fst (fst y)) && String.eqb (snd (fst x)) (snd (fst y)) && String.eqb (snd x) (snd y)) accounted) (unchecked_sites) = true.
+Proof. vm_compute. reflexivity. Qed.
